@@ -157,6 +157,7 @@ func (p *Program) VerifyFunc(fi *FuncInfo) (res *FuncResult) {
 	// entry state
 	e.prepareBody(fi.Pkg.TypesInfo, fi.Decl.Body)
 	e.computeTaint(fi)
+	e.computeBorrowed(fi)
 	e.keepVar = map[types.Object]bool{}
 	for _, cl := range append(append([]*Clause{}, c.Ensures...), c.Aux...) {
 		ast.Inspect(cl.Expr, func(n ast.Node) bool {
@@ -250,10 +251,29 @@ func (p *Program) VerifyFunc(fi *FuncInfo) (res *FuncResult) {
 					res.Unsupported = append(res.Unsupported, fmt.Sprintf("%s: ghostset target %q is not a single ghost location", gs.Value.Line, gs.Target))
 					continue
 				}
+				cur := Select(e.heapGet(final, ds[0].key), ds[0].ref)
+				if gs.SuchThat {
+					nv := e.Ctx.Fresh("gchoice", cur.Sort)
+					cond := True
+					if gs.When != nil {
+						if err := p.CheckClause(c, gs.When, sc.pos, sc); err != nil {
+							res.Unsupported = append(res.Unsupported, err.Error())
+							continue
+						}
+						cond = e.evalSpec(gpost, gs.When)
+					}
+					upd := Store(e.heapGet(final, ds[0].key), ds[0].ref, Ite(cond, nv, cur))
+					e.heapSet(final, ds[0].key, upd)
+					e.heapSet(gpost, ds[0].key, upd)
+					pred := e.evalSpec(gpost, gs.Value)
+					e.assume(final, Implies(cond, pred))
+					e.assume(gpost, Implies(cond, pred))
+					e.Assumed["ghost choice (ghostset "+gs.Target+" :| …): existence of a value satisfying the predicate is not checked"] = true
+					continue
+				}
 				e.spec++
 				val := e.eval(gpost.Clone(), gs.Value.Expr)
 				e.spec--
-				cur := Select(e.heapGet(final, ds[0].key), ds[0].ref)
 				if gs.When != nil {
 					if err := p.CheckClause(c, gs.When, sc.pos, sc); err != nil {
 						res.Unsupported = append(res.Unsupported, err.Error())
